@@ -52,6 +52,47 @@ WITNESS_DONE = _case(
     ops=[_L] + _job('1/b') + _job('1/d') + [_L, _L] + _job('1/c') + [_L] + _job('2/d') + [_L] + _job('1/a') + [_L, _L])
 
 
+def gen_abs_restart_case(seed):
+    """Family 'absr': SEVERAL outputs of one task behind absolute triggers, dependents that are spawned
+    cycle by cycle (a low runahead limit; through an inter-cycle parent or as auto-spawned parentless
+    successors), and one stop + restart at a random moment, after which the run goes on to the end."""
+    import random
+    rng = random.Random(seed * 7919 + 13)
+    outs = rng.sample(['start', 'succeed', 'x', 'y'], rng.randint(2, 3))
+    src_rec = rng.choice(['R1', 'P1', 'P1'])
+    form = rng.choice(['^', '^', '^', '1'])
+    lines, deps = [], ['c', 'd', 'e']
+    for out, dep in zip(outs, deps):
+        trig = f'a[{form}]' + ('' if out == 'succeed' else f':{out}')
+        style = rng.choice(['chain', 'chain', 'pure', 'start'])
+        if style == 'chain':
+            lines.append(f'{trig} & b[-P1] => {dep}')
+        elif style == 'start':
+            lines.append(f'{trig} & b[-P1]:start => {dep}')
+        else:
+            lines.append(f'{trig} => {dep}')
+    lines.append('b')
+    body = '\n'.join('            ' + ln for ln in lines)
+    graph = ''
+    if src_rec == 'R1':
+        graph += '        R1 = """\n            a\n        """\n'
+    else:
+        body += '\n            a'
+    graph += f'        P1 = """\n{body}\n        """'
+    runtime = ''
+    custom = [o for o in outs if o in ('x', 'y')]
+    if custom:
+        runtime = '    [[a]]\n        [[[outputs]]]\n' + ''.join(f'            {o} = {o}{o}\n' for o in custom)
+    fcp = rng.randint(5, 7)
+    case = {'id': f'absr{seed}', 'flow': _flow(graph, 1, fcp, rng.choice([0, 0, 1]), runtime), 'seed': seed, 'opts': {},
+            'kind': 'cmdr', 'ops': None,
+            'policy': {'max_steps': 320, 'p_msg': rng.choice([0.5, 0.7]), 'p_noise': 0.0,
+                       'outcomes': {'a': {'custom': [o + o for o in custom], 'p_custom': 1.0}},
+                       'cmds': [rng.choice(['stop_now', 'stop_clean'])], 'p_cmd': rng.choice([0.02, 0.03, 0.05]),
+                       'restarts': 1}}
+    return case
+
+
 class C45(SchedProp):
     id = 'C45'
     props_modules = ['CylcModel.Props.C45']
@@ -112,6 +153,11 @@ class C45(SchedProp):
             _case('c45-and', '        P1 = """\n a[^] & b[-P1] => c\n a\n b\n"""', fcp=5, rh=1),
             _case('c45-out', '        P1 = """\n a[^]:start & b => c\n a\n"""', fcp=5, rh=0),
         ]
+
+    def gen(self, tier, rng):
+        # every sixth case comes from the family 'absr' (several absolute outputs of one task + restart + late dependents)
+        for k, case in enumerate(super().gen(tier, rng)):
+            yield gen_abs_restart_case(case['seed']) if k % 6 == 5 else case
 
     # every third case stops the scheduler (stop --now / clean stop) at a random moment, restarts it and goes on:
     # the Sched v1 model is compared on the prefix before the stop command, the judge sees the whole trace
